@@ -279,3 +279,56 @@ func (c *Counters) Add(o *Counters) {
 		}
 	}
 }
+
+// PolicyByName returns one of the named policies:
+//
+//	default       DefaultPolicy
+//	quiet         QuietPolicy (all blocks, full participation, nothing else)
+//	eventful      many slashings, exits, deposits, skips
+//	exits         no slashings, many voluntary exits and BLS changes (full withdrawals follow)
+//	deposits      quiet chain with a steady stream of new deposits and top-ups (activations)
+//	sparse        default operations, ~30% participation in every epoch (leak, ejections)
+//	under         participation just under 2/3 in every epoch (no justification)
+//	over          participation just over 2/3 in every epoch (justification at the threshold)
+//	leak-recover  full for 2 epochs, sparse for 5, then full again (leak starts and ends)
+//	nobody        blocks without any attestation
+func PolicyByName(name string) Policy {
+	p := DefaultPolicy()
+	fixed := func(pt Pattern) func(common.Epoch) Pattern { return func(common.Epoch) Pattern { return pt } }
+	switch name {
+	case "quiet":
+		return QuietPolicy()
+	case "exits":
+		// no slashings; everybody who may exit does, everybody who can changes credentials: full withdrawals
+		p.ProposerSlashings, p.AttesterSlashings, p.Exits, p.BLSChanges = 0, 0, 1.5, 1.5
+		p.SkipProb, p.LateInclusionProb, p.OddVoteProb = 0.05, 0.05, 0
+	case "deposits":
+		// a healthy, finalizing chain with a steady stream of deposits (activation queue)
+		p = QuietPolicy()
+		p.NewDeposits, p.TopUps, p.BadPoPDeposits = 0.6, 0.4, 0.1
+	case "eventful":
+		p.SkipProb = 0.2
+		p.ProposerSlashings, p.AttesterSlashings, p.Exits = 0.15, 0.15, 0.5
+		p.NewDeposits, p.BadPoPDeposits, p.TopUps, p.BLSChanges = 0.8, 0.2, 0.5, 0.8
+		p.LateInclusionProb, p.SplitProb, p.OddVoteProb = 0.25, 0.3, 0.1
+	case "sparse":
+		p.Participation = fixed(Sparse)
+	case "under":
+		p.Participation = fixed(JustUnderTwoThirds)
+	case "over":
+		p.Participation = fixed(JustOverTwoThirds)
+	case "nobody":
+		p.Participation = fixed(Nobody)
+	case "leak-recover":
+		p.Participation = func(e common.Epoch) Pattern {
+			if e >= 2 && e < 7 {
+				return Sparse
+			}
+			return Full
+		}
+	}
+	return p
+}
+
+// PolicyNames lists the names PolicyByName knows.
+var PolicyNames = []string{"default", "quiet", "eventful", "exits", "deposits", "sparse", "under", "over", "leak-recover", "nobody"}
